@@ -45,3 +45,43 @@ Section Literal.
         else Ok tt (rset s1 t (load_value (if iset_of s1 =? 0 then LWordArm else LWordThumb) s1 address data))
     end.
 End Literal.
+
+(* ---------- LDRD / STRD (A8.8.72-74, 210-211): two words through MemA; with the Large Physical Address Extension a doubleword-
+   aligned transfer is one 64-bit single-copy atomic access whose halves are assigned by endianness ---------- *)
+Definition big_endian (s : machine) : bool := bit (cpsr_of s) 9 =? 1.
+Section Dual.
+  Variable rd : Z -> Z -> M machine Z.
+  Variable wr : Z -> Z -> Z -> M machine unit.
+  Variable lpae : Z.
+  Definition LDRD_core (s : machine) (address t t2 : Z) : outcome machine unit :=
+    if negb (lpae =? 0) && (bits address 2 0 =? 0) then
+      match rd address 8 s with
+      | Exc e s' => Exc e s'
+      | Ok data s1 => Ok tt (if big_endian s1 then rset (rset s1 t (bits data 63 32)) t2 (bits data 31 0)
+                             else rset (rset s1 t (bits data 31 0)) t2 (bits data 63 32))
+      end
+    else
+      match rd address 4 s with
+      | Exc e s' => Exc e s'
+      | Ok d1 s1 => let s2 := rset s1 t d1 in
+          match rd (add32 address 4) 4 s2 with
+          | Exc e s' => Exc e s'
+          | Ok d2 s3 => Ok tt (rset s3 t2 d2)
+          end
+      end.
+  Definition STRD_core (s : machine) (address t t2 : Z) : outcome machine unit :=
+    if negb (lpae =? 0) && (bits address 2 0 =? 0) then
+      wr address 8 (if big_endian s then rget s t * 2 ^ 32 + rget s t2 else rget s t2 * 2 ^ 32 + rget s t) s
+    else
+      match wr address 4 (rget s t) s with
+      | Exc e s' => Exc e s'
+      | Ok _ s1 => wr (add32 address 4) 4 (rget s1 t2) s1
+      end.
+  Definition with_wback (r : outcome machine unit) (wback n oa : Z) : outcome machine unit :=
+    match r with Exc e s' => Exc e s' | Ok _ s1 => Ok tt (if wback =? 0 then s1 else rset s1 n oa) end.
+  Definition LDRD (s : machine) (base off add index wback n t t2 : Z) : outcome machine unit :=
+    with_wback (LDRD_core s (ls_address base off add index) t t2) wback n (ls_offset_addr base off add).
+  Definition STRD (s : machine) (base off add index wback n t t2 : Z) : outcome machine unit :=
+    with_wback (STRD_core s (ls_address base off add index) t t2) wback n (ls_offset_addr base off add).
+  Definition LDRD_lit (s : machine) (add imm32 t t2 : Z) : outcome machine unit := LDRD_core s (lit_address s add imm32) t t2.
+End Dual.
